@@ -1020,6 +1020,27 @@ def discarded_results(ctx, rule, prefixes, what):
     kept_figures(ctx, rule, prefixes, what)
     from .rules.c16 import late_bound_in
     fns = [fn for fn in ctx.M.all_funcs() if fn.parent is None and any(fn.path.startswith(p_) for p_ in prefixes)]
+    # parallel lists walked in step: zip(assets, costs) pairs by POSITION.  costs = [f(a) for a in assets if keep(a)] is shorter than assets and, from the first element
+    # filtered out on, every cost is paired with the wrong asset (zip stops at the shorter list without a word)
+    for fn in fns:
+        comps_ = {}
+        for n_ in ast.walk(fn.node):
+            if isinstance(n_, ast.Assign) and len(n_.targets) == 1 and isinstance(n_.targets[0], ast.Name) and isinstance(n_.value, (ast.ListComp, ast.GeneratorExp)) \
+                    and len(n_.value.generators) == 1:
+                comps_.setdefault(n_.targets[0].id, []).append(n_.value.generators[0])
+        for n_ in ast.walk(fn.node):
+            if isinstance(n_, ast.Call) and isinstance(n_.func, ast.Name) and n_.func.id == 'zip' and len(n_.args) >= 2 and all(isinstance(a_, ast.Name) for a_ in n_.args):
+                names_ = [a_.id for a_ in n_.args]
+                for a_ in names_:
+                    gens_ = comps_.get(a_, [])
+                    if len(gens_) == 1 and gens_[0].ifs:
+                        src_names = {x_.id for x_ in ast.walk(gens_[0].iter) if isinstance(x_, ast.Name)}
+                        others_ = [b_ for b_ in names_ if b_ != a_ and b_ in src_names]
+                        if others_:
+                            ctx.violation(rule, what, fn.site(n_), 'READ!: `%s` pairs %s with %s by position, but %s was built from %s with the filter `if %s`: it is shorter, and from the first '
+                                          'element filtered out on every pair is misaligned' % (ast.unparse(n_)[:70], a_, ', '.join(others_), a_, ', '.join(others_),
+                                                                                               ast.unparse(gens_[0].ifs[0])[:50]), key='%s|misaligned-zip|%s' % (rule, fn.qn))
+                            break
     # partial(f, arg=Queue()) evaluates Queue() ONCE, when the partial is made: kept as a factory (in a field, a module name) and called for every new object, it hands
     # each of them the same queue / list / dict
     MUT_CTORS = {'Queue', 'LifoQueue', 'PriorityQueue', 'SimpleQueue', 'deque', 'list', 'dict', 'set', 'OrderedDict', 'defaultdict', 'Counter', 'bytearray'}
